@@ -166,6 +166,13 @@ pub enum DeepFamily {
 	DeepAtEndOfWide,
 	DeepUnclosedKey,
 	DeepStringsInside,
+	/// Stack use must not grow with the *length* of anything either.
+	WhitespaceRuns,
+	LongString,
+	LongNumber,
+	WideArray,
+	WideObject,
+	LongStringThenError,
 	/// Known finding: a *complete* deep value followed by an error.
 	CompleteThenGarbage,
 	CompleteInArrayThenEof,
@@ -181,6 +188,12 @@ pub const DEEP_FAMILIES: &[(DeepFamily, &str)] = &[
 	(DeepFamily::DeepAtEndOfWide, "deep_at_end_of_wide"),
 	(DeepFamily::DeepUnclosedKey, "deep_unclosed_key"),
 	(DeepFamily::DeepStringsInside, "deep_strings_inside"),
+	(DeepFamily::WhitespaceRuns, "whitespace_runs"),
+	(DeepFamily::LongString, "long_string"),
+	(DeepFamily::LongNumber, "long_number"),
+	(DeepFamily::WideArray, "wide_array"),
+	(DeepFamily::WideObject, "wide_object"),
+	(DeepFamily::LongStringThenError, "long_string_then_error"),
 	(DeepFamily::CompleteThenGarbage, "complete_then_garbage"),
 	(DeepFamily::CompleteInArrayThenEof, "complete_in_array_then_eof"),
 ];
@@ -211,6 +224,16 @@ impl DeepFamily {
 				(t, Err((l, None)))
 			}
 			DeepFamily::DeepStringsInside => (format!("{}\"\u{e9}\\n\"{}", rep("[ ", n), rep(" ]", n)), Ok(n + 1)),
+			DeepFamily::WhitespaceRuns => (format!("{}[{}1{},{}2{}]{}", rep(" ", n), rep("\n", n), rep("\t", n), rep("\r", n), rep(" ", n), rep(" \n", n)), Ok(3)),
+			DeepFamily::LongString => (format!("[\"{}\"]", rep("a\\n\u{e9}\\u0041", n)), Ok(2)),
+			DeepFamily::LongNumber => (format!("[-{}.{}e-{}]", rep("7", n), rep("3", n), "9"), Ok(2)),
+			DeepFamily::WideArray => (format!("[{}0]", rep("1,", n)), Ok(n + 2)),
+			DeepFamily::WideObject => (format!("{{{}\"z\":0}}", rep("\"k\":[],", n)), Ok(3 * n + 4)),
+			DeepFamily::LongStringThenError => {
+				let t = format!("[\"{}\" x", rep("ab", n));
+				let l = t.len() - 1;
+				(t, Err((l, Some('x'))))
+			}
 			DeepFamily::CompleteThenGarbage => (format!("{}{}x", rep("[", n), rep("]", n)), Err((2 * n, Some('x')))),
 			DeepFamily::CompleteInArrayThenEof => {
 				let t = format!("[{}{},", rep("[", n), rep("]", n));
@@ -357,6 +380,13 @@ pub fn run(ctx: &mut Ctx) {
 		tokens.extend(super::c07::surrogate_tokens());
 		let acc = pf::enum_token_seqs(&tokens, ntok, &checker);
 		ctx.add(acc.into_fam("P3_token_sequences", &format!("every sequence of <= {ntok} tokens over 20 tokens, same battery"), true, CLASSES, &json!({})));
+	}
+	if ctx.wants("S_surrogate_sequences") {
+		ctx.begin_family("S_surrogate_sequences");
+		let l = ctx.pick(4, 5);
+		let inputs = super::c12::element_sequences(l);
+		let acc = pf::run_list(&inputs, false, &checker);
+		ctx.add(acc.into_fam("S_surrogate_sequences", &format!("every sequence of 1..={l} string elements from {:?} as value, key and array item, same battery (all four option records, every entry point kind): no panic, verdict = reference", super::c12::ELEMENTS), true, CLASSES, &json!({})));
 	}
 	if ctx.wants("D_deep_nesting") {
 		ctx.begin_family("D_deep_nesting");
